@@ -95,7 +95,7 @@ fn waker_lifecycle() {
     kani::cover!(!wake1 && !wake2, "drop without a preceding wake");
     std::mem::forget(s);
 }
-// @verif prop=C12,C11,C18 tier=thorough timeout=900 mem=24 unwind=10 unwindset=drop_glue::<\[.*Stakker\)>\]>\.0$:1,Leaf(::|5)drain.*\.0$:3
+// @verif prop=C12,C11,C18 tier=thorough timeout=1200 mem=24 unwind=10 unwindset=drop_glue::<\[.*Stakker\)>\]>\.0$:1,Leaf(::|5)drain.*\.0$:3
 // @enc Stakker::{set_poll_waker,poll_wake,process_waker_drops} Core::waker WakeHandlers::{new,add,del,wake_list,drop_list,handler_borrow,handler_restore} Waker::{wake,drop} BitMap::{new,set,drain} Leaf::{set,drain}
 // @sym whether each of two wakers is woken before the first is dropped
 // @bound 3 wakers (the third reuses the first one's slot), 5 poll_wake calls, executed sequentially at operation granularity
@@ -121,14 +121,14 @@ fn waker_wake_then_drop(wake1: bool) {
     kani::cover!(true, "done");
     std::mem::forget(s);
 }
-// @verif prop=C12,C11,C18 tier=quick timeout=900 mem=24 unwind=10 unwindset=drop_glue::<\[.*Stakker\)>\]>\.0$:1,Leaf(::|5)drain.*\.0$:3 alt=ms-nu
+// @verif prop=C12,C11,C18 tier=quick timeout=1200 mem=24 unwind=10 unwindset=drop_glue::<\[.*Stakker\)>\]>\.0$:1,Leaf(::|5)drain.*\.0$:3 alt=ms-nu
 // @enc Stakker::{set_poll_waker,poll_wake,process_waker_drops} Core::waker WakeHandlers::{add,del,wake_list,drop_list,handler_borrow,handler_restore} Waker::{wake,drop} BitMap::{set,drain}
 // @sym none (control flow must stay concrete: symbolic wake flags make every bitmap index symbolic and the query does not finish)
 // @bound 1 waker: [wake]; drop; poll_wake; poll_wake
 // @stub std::hash::RandomState::new -> fixed keys
 // @assume sequential execution at operation granularity; multi-stakker,no-unsafe-queue build
 sync_harness!(wk_wake_then_drop, waker_wake_then_drop(true));
-// @verif prop=C12,C11 tier=quick timeout=900 mem=24 unwind=10 unwindset=drop_glue::<\[.*Stakker\)>\]>\.0$:1,Leaf(::|5)drain.*\.0$:3
+// @verif prop=C12,C11 tier=quick timeout=1200 mem=24 unwind=10 unwindset=drop_glue::<\[.*Stakker\)>\]>\.0$:1,Leaf(::|5)drain.*\.0$:3
 // @enc Stakker::{set_poll_waker,poll_wake,process_waker_drops} Core::waker WakeHandlers::{add,del,wake_list,drop_list,handler_borrow,handler_restore} Waker::{wake,drop} BitMap::{set,drain}
 // @sym none (control flow must stay concrete: symbolic wake flags make every bitmap index symbolic and the query does not finish)
 // @bound 1 waker: drop (never woken); poll_wake; poll_wake
@@ -155,7 +155,7 @@ fn waker_slot_reuse() {
     kani::cover!(true, "done");
     std::mem::forget(s);
 }
-// @verif prop=C12 tier=quick timeout=900 mem=24 unwind=10 unwindset=drop_glue::<\[.*Stakker\)>\]>\.0$:1,Leaf(::|5)drain.*\.0$:3
+// @verif prop=C12 tier=quick timeout=1200 mem=24 unwind=10 unwindset=drop_glue::<\[.*Stakker\)>\]>\.0$:1,Leaf(::|5)drain.*\.0$:3
 // @enc as wk_wake_then_drop, plus slab slot reuse in WakeHandlers::add
 // @sym none (fixed script)
 // @bound 3 wakers (the third reuses the first one's slot); 3 poll_wake calls
@@ -210,14 +210,14 @@ fn channel_open_close(collect_first: bool) {
     kani::cover!(true, "done");
     std::mem::forget(s);
 }
-// @verif prop=C13,C18 tier=off timeout=900 mem=24 unwind=10 unwindset=drop_glue::<\[.*Stakker\)>\]>\.0$:1,Leaf(::|5)drain.*\.0$:3
+// @verif prop=C13,C18 tier=off timeout=1200 mem=24 unwind=10 unwindset=drop_glue::<\[.*Stakker\)>\]>\.0$:1,Leaf(::|5)drain.*\.0$:3
 // @enc Channel::{new,send,is_closed,clone} ChannelGuard::drop Closable::close Core::waker Stakker::poll_wake Waker::{wake,drop} Fwd::{new,fwd}
 // @sym 4 message values (control flow concrete)
 // @bound 2 senders, 4 accepted messages, 5 poll_wake calls, guard dropped; one step = one critical section
 // @stub std::hash::RandomState::new -> fixed keys
 // @assume critical-section granularity (all channel state is under one mutex, wake() is called inside it); a change that touches shared state outside the lock would not be seen
 sync_harness!(ch_open_close, channel_open_close(true));
-// @verif prop=C13,C18 tier=off timeout=900 mem=24 unwind=10 unwindset=drop_glue::<\[.*Stakker\)>\]>\.0$:1,Leaf(::|5)drain.*\.0$:3
+// @verif prop=C13,C18 tier=off timeout=1200 mem=24 unwind=10 unwindset=drop_glue::<\[.*Stakker\)>\]>\.0$:1,Leaf(::|5)drain.*\.0$:3
 // @enc Channel::{new,send,is_closed,clone} ChannelGuard::drop Closable::close Core::waker Stakker::poll_wake Waker::{wake,drop} Fwd::{new,fwd}
 // @sym 4 message values (control flow concrete)
 // @bound 2 senders, 4 accepted messages, 5 poll_wake calls, guard dropped with a message still queued; one step = one critical section
@@ -257,7 +257,7 @@ fn channel_send_during_forward() {
     std::mem::forget(guard);
     std::mem::forget(s);
 }
-// @verif prop=C13 tier=off timeout=900 mem=24 unwind=10 unwindset=drop_glue::<\[.*Stakker\)>\]>\.0$:1,Leaf(::|5)drain.*\.0$:3
+// @verif prop=C13 tier=off timeout=1200 mem=24 unwind=10 unwindset=drop_glue::<\[.*Stakker\)>\]>\.0$:1,Leaf(::|5)drain.*\.0$:3
 // @enc Channel::{new,send} (wake handler closure of Channel::new) Stakker::poll_wake
 // @sym none (fixed script)
 // @bound 2 messages; the second send happens inside the forwarding window of the first collection
@@ -286,7 +286,7 @@ fn channel_simple() {
     kani::cover!(true, "done");
     std::mem::forget(s);
 }
-// @verif prop=C13,C18 tier=quick timeout=900 mem=24 unwind=10 unwindset=drop_glue::<\[.*Stakker\)>\]>\.0$:1,Leaf(::|5)drain.*\.0$:3 alt=ms-nu
+// @verif prop=C13,C18 tier=quick timeout=1200 mem=24 unwind=10 unwindset=drop_glue::<\[.*Stakker\)>\]>\.0$:1,Leaf(::|5)drain.*\.0$:3 alt=ms-nu
 // @enc Channel::{new,send,is_closed} ChannelGuard::drop Closable::close Core::waker Stakker::poll_wake Waker::{wake,drop} Fwd::{new,fwd}
 // @sym message value
 // @bound 1 sender, 1 accepted message, 3 poll_wake calls, guard dropped, 1 rejected message; one step = one critical section
@@ -312,7 +312,7 @@ fn channel_two_senders() {
     std::mem::forget(guard);
     std::mem::forget(s);
 }
-// @verif prop=C13 tier=off timeout=400 mem=24 unwind=10 unwindset=drop_glue::<\[.*Stakker\)>\]>\.0$:1,Leaf(::|5)drain.*\.0$:3,Channel.*3new.*\.0$:3
+// @verif prop=C13 tier=off timeout=1200 mem=24 unwind=10 unwindset=drop_glue::<\[.*Stakker\)>\]>\.0$:1,Leaf(::|5)drain.*\.0$:3,Channel.*3new.*\.0$:3
 // @enc Channel::{new,send,clone} Core::waker Stakker::poll_wake Waker::wake Fwd::fwd
 // @sym 3 message values
 // @bound 2 senders, 3 accepted messages in 2 batches, 2 poll_wake calls
@@ -337,7 +337,7 @@ fn channel_close_empty() {
     kani::cover!(true, "done");
     std::mem::forget(s);
 }
-// @verif prop=C13,C12 tier=quick timeout=900 mem=24 unwind=10 unwindset=drop_glue::<\[.*Stakker\)>\]>\.0$:1,Leaf(::|5)drain.*\.0$:3
+// @verif prop=C13,C12 tier=quick timeout=1200 mem=24 unwind=10 unwindset=drop_glue::<\[.*Stakker\)>\]>\.0$:1,Leaf(::|5)drain.*\.0$:3
 // @enc Channel::{new,send,is_closed,clone} ChannelGuard::drop Closable::close Waker::drop Stakker::{poll_wake,process_waker_drops}
 // @sym message value
 // @bound 2 handles, guard dropped at once, 2 rejected sends, 2 poll_wake calls
